@@ -364,7 +364,14 @@ func genC04(r *Rng, tier string) []Case {
 		}
 		for k := -1; k <= total; k++ {
 			cs = append(cs, Case{"cw_writes", []Sx{L(chunks...), Zi(int64(k)), Zi(int64(r.Intn(2)))}})
+			if i%2 == 0 { // the same through ReadFrom's own copy loop, the source ending in EOF or in an error
+				cs = append(cs, Case{"cw_readfrom", []Sx{L(chunks...), Zi(int64(k)), Zi(int64(r.Intn(2))), Zi(int64(r.Intn(3) / 2))}})
+			}
 		}
+	}
+	// a source chunk larger than ReadFrom's 32 KiB buffer
+	for _, k := range []int{-1, 0, 1, 32767, 32768, 32769, 70000, 99999, 100000} {
+		cs = append(cs, Case{"cw_readfrom", []Sx{L(B(r.Bytes(100000))), Zi(int64(k)), Zi(int64(r.Intn(2))), Zi(0)}})
 	}
 	return cs
 }
@@ -584,6 +591,31 @@ func genC05(r *Rng, tier string) []Case {
 					c := clone()
 					c.entries[ei].count = u64p(v)
 					read(c.build())
+				}
+			}
+			// the section-lengths byte string at its limit: 8191 bytes is the longest the reader takes
+			if rep == 0 {
+				slLen := func(file []byte) int { // length of the byte string that follows the magic (and the b1 primary URL)
+					p := 15
+					if ver == bver.VersionB1 {
+						p += len(cborText(base.primary))
+					}
+					switch {
+					case file[p] < 0x58:
+						return int(file[p] & 0x1f)
+					case file[p] == 0x58:
+						return int(file[p+1])
+					default:
+						return int(file[p+1])<<8 | int(file[p+2])
+					}
+				}
+				for k := 8100; k < 8200; k++ {
+					c := clone()
+					c.extra = []bbSection{{name: strings.Repeat("u", k), body: []byte{}}}
+					built := c.build()
+					if n := slLen(built); n >= 8190 && n <= 8194 {
+						read(built)
+					}
 				}
 			}
 			// :status spellings the reader must refuse (only three ASCII digits are a status)
